@@ -99,6 +99,10 @@ type Options struct {
 	// (0 = default 400000). When exhausted the rule's result is undecided:
 	// one optional offence without nodes is returned.
 	Budget int
+	// TypenameUntyped makes the overlap rule treat the meta field __typename
+	// as a field without known type (the relaxation that mirrors the
+	// library's defect class "overlap rule does not type __typename").
+	TypenameUntyped bool
 }
 
 var ruleFuncs = map[string]func(c *ctx) []Offence{
@@ -175,24 +179,121 @@ func Violated(offs []Offence) bool {
 	return false
 }
 
-// Result is the decision for one rule over both readings of duplicate definitions.
+// Result is the decision for one rule.
 type Result struct {
-	Must     bool      // violated under every reading: >= 1 error must be reported
-	May      bool      // some reading has an offence (optional ones included): errors may be reported
+	Must     bool      // violated for sure: >= 1 error must be reported
+	May      bool      // errors may be reported (some offence exists, optional ones included, or the rule is open)
+	Open     bool      // the document's duplicate definitions make the rule's meaning ambiguous: nothing is demanded, locations are not compared
 	Offences []Offence // union over the readings
 }
 
-// Ambiguous reports whether the document contains duplicate definitions that
-// make name resolution ambiguous (fragment names, variable names within one
-// operation, argument names within one field or directive, input-field names
-// within one object value).
-func Ambiguous(doc *nast.Document) bool {
+// Ambiguity describes the duplicate definitions of a document that are NOT
+// mere repetitions (identical text): they make name resolution ambiguous.
+type Ambiguity struct {
+	Fragments   bool // two different fragments of one name
+	Variables   bool // two different definitions of one variable in one operation
+	Arguments   bool // one argument given twice with different values
+	InputFields bool // one input field given twice with different values
+}
+
+func (a Ambiguity) Any() bool { return a.Fragments || a.Variables || a.Arguments || a.InputFields }
+
+// nodeText renders a subtree canonically without touching it.
+func nodeText(n nast.Node) string {
+	switch v := n.(type) {
+	case nil:
+		return ""
+	case *nast.Name:
+		return v.Value
+	case *nast.Named:
+		return v.Name.Value
+	case *nast.List:
+		return "[" + nodeText(v.Of) + "]"
+	case *nast.NonNull:
+		return nodeText(v.Of) + "!"
+	case *nast.Variable, *nast.IntValue, *nast.FloatValue, *nast.StringValue, *nast.BooleanValue, *nast.EnumValue, *nast.ListValue, *nast.ObjectValue:
+		return valueText(n)
+	}
+	out := n.Kind() + "("
+	if op, ok := n.(*nast.Operation); ok {
+		out += op.Op
+	}
+	for _, ch := range nast.Children(n) {
+		out += " " + nodeText(ch)
+	}
+	return out + ")"
+}
+
+// Ambiguities finds the duplicate definitions that differ.
+func Ambiguities(doc *nast.Document) Ambiguity {
+	var a Ambiguity
+	frags := map[string]string{}
+	for _, d := range doc.Defs {
+		if f, ok := d.(*nast.Fragment); ok {
+			t := nodeText(f)
+			if old, dup := frags[f.Name.Value]; dup && old != t {
+				a.Fragments = true
+			}
+			frags[f.Name.Value] = t
+		}
+		if op, ok := d.(*nast.Operation); ok {
+			seen := map[string]string{}
+			for _, vd := range op.Vars {
+				t := nodeText(vd)
+				if old, dup := seen[vd.Var.Name.Value]; dup && old != t {
+					a.Variables = true
+				}
+				seen[vd.Var.Name.Value] = t
+			}
+		}
+	}
+	dupArgs := func(as []*nast.Argument) bool {
+		seen := map[string]string{}
+		for _, x := range as {
+			t := valueText(x.Value)
+			if old, dup := seen[x.Name.Value]; dup && old != t {
+				return true
+			}
+			seen[x.Name.Value] = t
+		}
+		return false
+	}
+	var visit func(n nast.Node)
+	visit = func(n nast.Node) {
+		switch v := n.(type) {
+		case *nast.Field:
+			a.Arguments = a.Arguments || dupArgs(v.Args)
+		case *nast.Directive:
+			a.Arguments = a.Arguments || dupArgs(v.Args)
+		case *nast.ObjectValue:
+			seen := map[string]string{}
+			for _, f := range v.Fields {
+				t := valueText(f.Value)
+				if old, dup := seen[f.Name.Value]; dup && old != t {
+					a.InputFields = true
+				}
+				seen[f.Name.Value] = t
+			}
+		}
+		for _, ch := range nast.Children(n) {
+			visit(ch)
+		}
+	}
+	visit(doc)
+	return a
+}
+
+// Ambiguous reports whether the document has duplicate definitions that differ.
+func Ambiguous(doc *nast.Document) bool { return Ambiguities(doc).Any() }
+
+// hasDuplicates: some fragment name, variable name (per operation), argument
+// name (per field / directive) or input-field name (per object) occurs twice.
+func hasDuplicates(doc *nast.Document) bool {
 	frags := map[string]bool{}
-	amb := false
 	for _, d := range doc.Defs {
 		if f, ok := d.(*nast.Fragment); ok {
 			if frags[f.Name.Value] {
-				amb = true
+				return true
 			}
 			frags[f.Name.Value] = true
 		}
@@ -200,16 +301,12 @@ func Ambiguous(doc *nast.Document) bool {
 			seen := map[string]bool{}
 			for _, vd := range op.Vars {
 				if seen[vd.Var.Name.Value] {
-					amb = true
+					return true
 				}
 				seen[vd.Var.Name.Value] = true
 			}
 		}
 	}
-	if amb {
-		return true
-	}
-	var visit func(n nast.Node) bool
 	dupArgs := func(as []*nast.Argument) bool {
 		seen := map[string]bool{}
 		for _, a := range as {
@@ -220,6 +317,7 @@ func Ambiguous(doc *nast.Document) bool {
 		}
 		return false
 	}
+	var visit func(n nast.Node) bool
 	visit = func(n nast.Node) bool {
 		switch v := n.(type) {
 		case *nast.Field:
@@ -249,21 +347,48 @@ func Ambiguous(doc *nast.Document) bool {
 	return visit(doc)
 }
 
-// Decide evaluates all rules under both readings of duplicate definitions
-// (one reading when the document has none).
+// rules whose meaning depends on which of several different definitions of
+// one name is meant
+var openBy = map[string]func(a Ambiguity) bool{
+	NoFragmentCycles:             func(a Ambiguity) bool { return a.Fragments },
+	NoUnusedFragments:            func(a Ambiguity) bool { return a.Fragments },
+	NoUnusedVariables:            func(a Ambiguity) bool { return a.Fragments },
+	NoUndefinedVariables:         func(a Ambiguity) bool { return a.Fragments },
+	PossibleFragmentSpreads:      func(a Ambiguity) bool { return a.Fragments },
+	VariablesInAllowedPosition:   func(a Ambiguity) bool { return a.Fragments || a.Variables },
+	OverlappingFieldsCanBeMerged: func(a Ambiguity) bool { return a.Fragments || a.Arguments },
+	ArgumentsOfCorrectType:       func(a Ambiguity) bool { return a.InputFields },
+	DefaultValuesOfCorrectType:   func(a Ambiguity) bool { return a.InputFields },
+}
+
+// Decide evaluates all rules. Duplicate definitions that are identical
+// repetitions do not matter for name resolution; when duplicates DIFFER the
+// rules that resolve such names are open for the document (both readings are
+// still evaluated so that the offences can be shown).
 func Decide(s *model.Schema, doc *nast.Document) map[string]Result {
 	first := CheckWith(s, doc, Options{})
+	amb := Ambiguities(doc)
 	var last map[string][]Offence
-	if Ambiguous(doc) {
+	if hasDuplicates(doc) {
+		// identical repetitions do not change any verdict, but a report may
+		// name the nodes of either copy
 		last = CheckWith(s, doc, Options{PickLast: true})
 	}
 	out := map[string]Result{}
 	for _, r := range Rules {
 		res := Result{Must: Violated(first[r]), May: len(first[r]) > 0, Offences: first[r]}
 		if last != nil {
-			res.Must = res.Must && Violated(last[r])
-			res.May = res.May || len(last[r]) > 0
 			res.Offences = append(append([]Offence{}, first[r]...), last[r]...)
+			res.May = res.May || len(last[r]) > 0
+			res.Must = res.Must && Violated(last[r])
+		}
+		if f := openBy[r]; f != nil && f(amb) {
+			res.Open, res.Must, res.May = true, false, true
+		}
+		for _, o := range res.Offences {
+			if o.Optional && len(o.Nodes) == 0 {
+				res.Open, res.Must, res.May = true, false, true // undecided (budget)
+			}
 		}
 		out[r] = res
 	}
